@@ -102,6 +102,7 @@ class Link(base.BaseObject):
         self._vertices.append(new)
         if (new is not None) and (self not in new.links):
             new.add_to_link(self)
+        self._qa_invalidate_ends()
 
     def unlink_from(self, kill: Vertex):
         """
@@ -120,3 +121,21 @@ class Link(base.BaseObject):
 
             if kill is not None:
                 kill.remove_from_link(self)
+            self._qa_invalidate_ends()
+
+    def _qa_invalidate_ends(self, *extra: Vertex):
+        """
+        Invalidate the neighbor caches of every vertex this link joins.
+
+        **FOR INTERNAL USE ONLY!!**
+
+        Whenever the vertices of a link change, the neighbors of *all* of its
+        ends may have changed -- not only those of the vertex being added or
+        removed.
+
+        :param extra: further vertices to invalidate (former ends, typically)
+        """
+        for vert in (*self._vertices, *extra):
+            if vert is not None:
+                # pylint: disable-next=protected-access
+                vert._qa_neighbors_invalidate()
